@@ -68,6 +68,11 @@ def run(P, rep, tier):
     rep.attempt(r3_read_only, P, rep, ctx)
     rep.attempt(r4_skel_only, P, rep, ctx)
     rep.attempt(r5_local_only, P, rep, ctx)
+    # the metadata interface of a node is built per access with THAT wrapper's restrictions (fresh-view rule of C07.R5): a
+    # cached one answers with the flags of whoever asked first
+    from . import c07 as _c07
+
+    rep.attempt(_c07.r5_fresh_view, P, rep, ctx, "C15.R7")
     rep.floor("C15.R1", 40, "handed-out values")
     rep.floor("C15.R3", 18)
     rep.floor("C15.R4", 6)
